@@ -997,6 +997,27 @@ class Visitor(ast.NodeVisitor):
 
         return generator_expr_func(**self._name_to_value)
 
+    def _visit_parts_of_comprehension(
+        self, parts: List[ast.expr], generators: List[ast.comprehension]
+    ) -> None:
+        """
+        Visit the parts of a comprehension to re-compute the values of their sub-expressions for the report.
+
+        The results of the visits are not used (please see "NOTE ABOUT PLACEHOLDERS AND RE-COMPUTATION").
+        Python might have never evaluated these parts (*e.g.*, if an iterable is empty or a filter holds for no item),
+        so they need not be defined at all. Hence, the errors in their re-computation are ignored.
+        """
+        nodes = list(parts)  # type: List[ast.expr]
+        for generator in generators:
+            nodes.append(generator.iter)
+            nodes.extend(generator.ifs)
+
+        for a_node in nodes:
+            try:
+                self.visit(a_node)
+            except Exception:  # pylint: disable=broad-except
+                pass
+
     def visit_GeneratorExp(self, node: ast.GeneratorExp) -> Any:
         """Compile the generator expression as a function and call it."""
         # NOTE ABOUT PLACEHOLDERS AND RE-COMPUTATION:
@@ -1029,13 +1050,7 @@ class Visitor(ast.NodeVisitor):
         ):
             self._name_to_value[target_name] = PLACEHOLDER
 
-        self.visit(node.elt)
-
-        for generator in node.generators:
-            self.visit(generator.iter)
-
-            for generator_if in generator.ifs:
-                self.visit(generator_if)
+        self._visit_parts_of_comprehension(parts=[node.elt], generators=node.generators)
 
         self._name_to_value = old_name_to_value
 
@@ -1056,13 +1071,7 @@ class Visitor(ast.NodeVisitor):
         ):
             self._name_to_value[target_name] = PLACEHOLDER
 
-        self.visit(node.elt)
-
-        for generator in node.generators:
-            self.visit(generator.iter)
-
-            for generator_if in generator.ifs:
-                self.visit(generator_if)
+        self._visit_parts_of_comprehension(parts=[node.elt], generators=node.generators)
 
         self._name_to_value = old_name_to_value
 
@@ -1085,13 +1094,7 @@ class Visitor(ast.NodeVisitor):
         ):
             self._name_to_value[target_name] = PLACEHOLDER
 
-        self.visit(node.elt)
-
-        for generator in node.generators:
-            self.visit(generator.iter)
-
-            for generator_if in generator.ifs:
-                self.visit(generator_if)
+        self._visit_parts_of_comprehension(parts=[node.elt], generators=node.generators)
 
         self._name_to_value = old_name_to_value
 
@@ -1114,14 +1117,9 @@ class Visitor(ast.NodeVisitor):
         ):
             self._name_to_value[target_name] = PLACEHOLDER
 
-        self.visit(node.key)
-        self.visit(node.value)
-
-        for generator in node.generators:
-            self.visit(generator.iter)
-
-            for generator_if in generator.ifs:
-                self.visit(generator_if)
+        self._visit_parts_of_comprehension(
+            parts=[node.key, node.value], generators=node.generators
+        )
 
         self._name_to_value = old_name_to_value
 
